@@ -109,10 +109,6 @@ def c20(ctx):
                      "storage accounting / boundedness")
 
 
-def selftest(ctx):
-    raise Inconclusive("selftest not built yet")
-
-
 @register("C12")
 def c12(ctx):
     quick = ctx.tier == "quick"
